@@ -996,7 +996,7 @@ def search_worker(item):
     path, line, column, name, type]] | None, 'exc', 'req': the request for the Lean model | None}"""
     import jedi
     from jedi.inference import references
-    t, root = _worker_tree(item['wire'])
+    t, root = item['tree'] if item.get('wire') is None else _worker_tree(item['wire'])
     q, complete, all_scopes = item['string'], item['complete'], item['all_scopes']
     parse_limit, mode = item['parse_limit'], item['mode']
     old = references._PARSED_FILE_LIMIT
@@ -1279,6 +1279,25 @@ def stream_corpus(ctx, reqs):
                 case = {'tree': strip_tree(t), 'mode': mode, 'except_paths': [], 'corpus': fn}
                 cases.append((('walk', case, root), impl))
                 walk_oracle(ctx, t, root, mode, (), impl, case)
+        elif item.get('kind') == 'search':
+            # {'tree', 'queries': [[string, complete, all_scopes], ..]}: the definitions are read off the
+            # files with python's ast (clash oracle) and the .py-only trees also go through the model
+            t = tree_from_json(item['tree'])
+            for _, node in all_dirs(t):
+                for f in node['files']:
+                    if f['name'].endswith(('.py', '.pyi')):
+                        f['_defs'] = CL.ast_defs(f['content'])
+            has_stub = any(rel.endswith('.pyi') for rel, _ in CL.src_files(t))
+            root = materialise(t)
+            roots.append(root)
+            for q, complete, all_scopes in item['queries']:
+                for mode in item.get('modes', ['sorted', 'reversed']):
+                    r = search_worker({'wire': None, 'tree': (t, root), 'string': q, 'complete': complete,
+                                       'all_scopes': all_scopes, 'parse_limit': 30, 'mode': mode,
+                                       'model': not has_stub})
+                    plan = [{'t': t, 'kind': 'clash', 'item': {'string': q, 'complete': complete,
+                                                               'all_scopes': all_scopes, 'parse_limit': 30, 'mode': mode}}]
+                    judge_plan(ctx, plan, [r], reqs, cases)
         elif item.get('kind') == 'gitignore':
             from jedi.inference import references
             from jedi.file_io import FolderIO
